@@ -198,6 +198,34 @@ example : ∃ f p3, ¬ HasFetch (run Ex.cfg (init []) Ex.ops0).1 1 f ∧
       (.message 1 (some (.obj Ex.fetch1)) {})).1 [Ex.opChange]).1.peers ∧ p3.conn = 1 ∧ f ∈ p3.fetches :=
   Ex.install_exists (by decide +kernel) (by decide +kernel)
 
+/-- Why atoms and not operations: the statement of `replica_exact` with "the operation that
+    installed `f`" in place of "the atom that installed `f`" is FALSE for batches.  Peer 1 sends
+    `[fetch id 1, unfetch id 1, fetch id 1]` in one message while peer 2 owns state "a": the
+    operation installs a fetch with id 1 that peer 1 did not have before, but the operation's
+    notifications for `(1, 1)` are "add a", "add a" (one per life time of the id), which do not
+    replay from the empty replica.  The daemon is right (each life time of the id is exact, by
+    `replica_exact`); life times simply have to be cut at request granularity. -/
+theorem step_granularity_too_coarse :
+    ∃ (ops : List Op) (op : Op) (c : Nat) (f : Fetch),
+      ¬ HasFetch (run {} (init []) ops).1 c f ∧
+      HasFetch (step {} (run {} (init []) ops).1 op).1 c f ∧
+      replay (notifsFor c f.fid (step {} (run {} (init []) ops).1 op).2) = none := by
+  obtain ⟨f, h1, h2, h3⟩ := Ex.coarse_exists (s := (run {} (init []) Ex.ops0).1)
+    (s' := (step {} (run {} (init []) Ex.ops0).1 Ex.opBatch).1) (c := 1)
+    (obs := (step {} (run {} (init []) Ex.ops0).1 Ex.opBatch).2) (by decide +kernel) (by decide +kernel)
+  exact ⟨Ex.ops0, Ex.opBatch, 1, f, h1, h2, h3⟩
+
+/-- A subscriber all of whose sends succeeded received exactly what was emitted: dropping the
+    failed sends to `c` from the observations changes nothing, so every statement about
+    `notifsFor c fid obs` is a statement about what a healthy `c` received. -/
+theorem healthy_receives_all (c : Nat) (fid : Json) (obs : List Obs)
+    (h : ∀ j b, Obs.send c j b ∈ obs → b = true) :
+    notifsFor c fid (recvd c obs) = notifsFor c fid obs := by
+  rw [recvd_eq_of_healthy h]
+
+example : ∀ j b, Obs.send 1 j b ∈ ([] : List Obs) → b = true := by
+  intro j b h; cases h
+
 /-! ## 3. adds before the success response -/
 
 /-- `adds_before_success`.  One JSON-RPC object `req` from connection `c`, any context.  If a
